@@ -3,8 +3,9 @@ import random
 from props.gossip_common import *
 from props import wire
 
+from props import round_probe
 ID = "C11"
-COQ_TARGETS = ["Run/Run_Gossip.vo"]
+COQ_TARGETS = ["Run/Run_Gossip.vo", "Run/Run_Round.vo"]
 META = {
     "text": "C11_silent_stays_unreachable / C11_heard_is_reachable (Compose/LiveFD.v): with the accrual detector of C12 wired into UpdateLiveness as gossip.New does, a peer found unreachable stays unreachable under EVERY schedule of later evaluations and of messages from anybody else until the detector is told it was heard from, and is reachable at an evaluation made the instant it is heard (the real detector inside the real state behind a virtual clock is run against this: silence, recovery, expiry). Theorems (Properties/C11.v) over the Gallina model of ApplyDigest/ApplyDelta/UpdateLiveness/RemoveExpiredAt/LeaveLocal: a digest entry flagged left never creates a node; once a view is marked left it stays left until removed and the liveness evaluation skips it; a node is removed by an expiry sweep iff its expiry is set and the sweep time is after it, left/unreachable transitions stamp expiry = now + 60 s and recovery clears it; unreachable is set/cleared exactly by the detector's verdict; no operation ever marks the local node unreachable, gives it an expiry or removes it, and only its own LeaveLocal sets its left flag. The clause 'stays forgotten unless it really returns' is REFUTED on the faithful model and on the real code (finding F2, zombie re-learned from a peer's digest) and is carried as a known finding with its witness replayed on every run. Every clause is also checked on every step of generated histories of real clusterStates (scripted failure detector) by an independent monitor, and model and implementation are compared field by field.",
     "note": "The phi detector itself is C12; here its verdict is an oracle input. Routing status mirroring is checked with C04's harness. Trusted: as C02.",
@@ -201,6 +202,9 @@ def run(ctx):
     # glue probes (monitor only): the code around the modelled handlers - unreachable peers keep being contacted, a completed exchange reaches the failure detector
     gv, gcov = glue_probes(ID, binary, wd, rng, quick, which=('round', 'heartbeat', 'rediscover'))
     violations += gv
+    # peer selection against the model Gossip/Round.v (real gossipRound on memberships with live, suspected and departed peers)
+    rcov, rv = round_probe.run(ctx, ID, {"round"})
+    violations += rv
     # the real accrual detector wired into the real state behind a virtual clock (silence, recovery, expiry)
     fv, fcov = fd_probe(ID, binary, wd, rng, quick)
     violations += fv
@@ -247,12 +251,15 @@ def run(ctx):
                               "event_kinds": kinds, "disagreements": len(dis), "seed": ctx["seed"]},
            "monitor": {"histories": len(cases), "failures": len(mon), "failures_known": nknown}}
     cov["glue_probes"] = gcov
+    cov["peer_selection_model"] = rcov
     cov["real_detector"] = fcov
     return {"coverage": cov, "violations": violations, "known": known}
 
 
 def replay(path, wd):
     obj = json.load(open(path))
+    if obj.get("kind") == "members":
+        return round_probe.replay(obj, wd)
     case = obj["case"]
     binary = build_harness("pkg/gossip", dirs=["gossip"])
     if replay_glue(obj, binary, wd):
